@@ -226,6 +226,121 @@ static void one(Case& cs) {
 }
 #endif
 
+// ---------------------------------------------------------------------------------------------------------------- lazy-range and operator forms
+#if C13_G == 4
+// level 1: n 0..4 x kinds; gemv forms: A kind x x kind x y kind x m,n 0..3; gemm operator forms: plain operands, general sizes; trsm operator forms
+static long n_l1() { return 5L * 4 * 4; } static long n_gemv() { return 4L * 4 * 4 * 4 * 4; } static long n_gemm() { return 4L * 4 * 4 * 2 * 2 * 2; } static long n_trsm() { return 4L * 4 * 3 * 3 * 2 * 2; }
+static long ncases() { return n_l1() + n_gemv() + n_gemm() + n_trsm(); }
+static void one(Case& cs) {
+	L k = cs.k; auto take = [&](L n) { L r = k % n; k /= n; return r; };
+	if(cs.k < n_l1()) {
+		L const n = take(5); int const kx = int(take(4)), ky = int(take(4));
+		std::string const lay = std::string(VK_[kx]) + "," + VK_[ky]; std::string const szs = szc(n);
+		describe(std::string("level1-forms ") + TN + " x=" + VK_[kx] + " y=" + VK_[ky] + " n=" + std::to_string(n)); sig_mix("l1f"); sig_mix(lay.c_str()); sig_mix(szs.c_str()); nontrivial(n > 0);
+		auto run = [&](char const* opn, auto&& body) {
+			Buf<T> RX, RY; auto&& x = mkv(RX, kx, n, POISON); auto&& y = mkv(RY, ky, n, OUTFILL); for(L i = 0; i < n; ++i) { x[i] = val(i, 0, 1); y[i] = val(i, 1, 2); }
+			std::vector<T> xv(x.begin(), x.end()), yv(y.begin(), y.end()); auto sx = RX.s, sy = RY.s;
+			op((std::string(opn) + ":" + lay + ":" + szs).c_str()); std::string key = std::string("C13:") + opn + ":" + TN + ":" + lay + ":n" + szs;
+			Outcome o = classify([&] { body(x, y, xv, yv, 0); }, [&]() -> Outcome { return body(x, y, xv, yv, 1) ? Outcome{"ok", ""} : Outcome{"wrong", std::string(opn) + " result differs from its definition, n=" + std::to_string(n)}; });
+			if(o.sym == "ok") { for(L i = 0; i < n; ++i) { x[i] = xv[std::size_t(i)]; y[i] = yv[std::size_t(i)]; } if(RX.touched(sx) || RY.touched(sy)) o = {"oob-write", "elements outside the vector views were modified"}; }
+			report(key, o); count(std::string("op:") + opn); };
+		T const a = CPLX ? val<T>(1, 2, 5) : T(R(2)); static T res; static R rres; static multi::array<T, 1> Z; static bool bres;
+		auto lin = [&](auto& y, auto& x, auto& xv, auto& yv, T ca, T cb) { bool ok = true; for(L i = 0; i < n; ++i) ok &= eq(y[i], ca * xv[std::size_t(i)] + cb * yv[std::size_t(i)]) && eq(x[i], xv[std::size_t(i)]); return ok; };
+		run("y+=axpy(a,x)", [&](auto& x, auto& y, auto& xv, auto& yv, int ph) { if(!ph) { y += blas::axpy(a, std::as_const(x)); return true; } return lin(y, x, xv, yv, a, T(R(1))); });
+		run("y-=axpy(a,x)", [&](auto& x, auto& y, auto& xv, auto& yv, int ph) { if(!ph) { y -= blas::axpy(a, std::as_const(x)); return true; } return lin(y, x, xv, yv, -a, T(R(1))); });
+		run("y+=a*x", [&](auto& x, auto& y, auto& xv, auto& yv, int ph) { if(!ph) { using blas::operators::operator*; using blas::operators::operator+=; multi::array<T, 1> Y(y); Y += a * x; y = Y; return true; } return lin(y, x, xv, yv, a, T(R(1))); });
+		run("y-=a*x", [&](auto& x, auto& y, auto& xv, auto& yv, int ph) { if(!ph) { using blas::operators::operator*; using blas::operators::operator-=; multi::array<T, 1> Y(y); Y -= a * x; y = Y; return true; } return lin(y, x, xv, yv, -a, T(R(1))); });
+		run("y+=x", [&](auto& x, auto& y, auto& xv, auto& yv, int ph) { if(!ph) { using blas::operators::operator+=; y += x; return true; } return lin(y, x, xv, yv, T(R(1)), T(R(1))); });
+		run("y-=x", [&](auto& x, auto& y, auto& xv, auto& yv, int ph) { if(!ph) { using blas::operators::operator-=; y -= x; return true; } return lin(y, x, xv, yv, T(R(-1)), T(R(1))); });
+		run("x+y", [&](auto& x, auto& y, auto& xv, auto& yv, int ph) { if(!ph) { using blas::operators::operator+; Z = x + y; return true; } bool ok = Z.size() == n && lin(y, x, xv, yv, T(R(0)), T(R(1))); for(L i = 0; ok && i < n; ++i) ok &= eq(Z[i], xv[std::size_t(i)] + yv[std::size_t(i)]); return ok; });
+		run("x-y", [&](auto& x, auto& y, auto& xv, auto& yv, int ph) { if(!ph) { using blas::operators::operator-; Z = x - y; return true; } bool ok = Z.size() == n && lin(y, x, xv, yv, T(R(0)), T(R(1))); for(L i = 0; ok && i < n; ++i) ok &= eq(Z[i], xv[std::size_t(i)] - yv[std::size_t(i)]); return ok; });
+		run("y*=a", [&](auto& x, auto& y, auto& xv, auto& yv, int ph) { if(!ph) { using blas::operators::operator*=; y *= a; return true; } return lin(y, x, xv, yv, T(R(0)), a); });
+		run("y*=scal(a)", [&](auto& x, auto& y, auto& xv, auto& yv, int ph) { if(!ph) { y *= blas::scal(a); return true; } return lin(y, x, xv, yv, T(R(0)), a); });
+		run("y=copy(x)", [&](auto& x, auto& y, auto& xv, auto& yv, int ph) { if(!ph) { y = blas::copy(x); return true; } return lin(y, x, xv, yv, T(R(1)), T(R(0))); });
+		run("array=copy(x)", [&](auto& x, auto& y, auto& xv, auto& yv, int ph) { if(!ph) { multi::array<T, 1> W = blas::copy(x); Z = W; return true; } bool ok = Z.size() == n && lin(y, x, xv, yv, T(R(0)), T(R(1))); for(L i = 0; ok && i < n; ++i) ok &= eq(Z[i], xv[std::size_t(i)]); return ok; });
+		run("y<<x", [&](auto& x, auto& y, auto& xv, auto& yv, int ph) { if(!ph) { using blas::operators::operator<<; y << x; return true; } return lin(y, x, xv, yv, T(R(1)), T(R(0))); });
+		count("not-compilable:x^y(operators)");  // blas::operators::operator^(x, y) (swap) cannot be instantiated for arrays or views on the pinned tree
+		auto dotref = [&](auto& xv, auto& yv) { T s{}; for(L i = 0; i < n; ++i) s += xv[std::size_t(i)] * yv[std::size_t(i)]; return s; };
+		run("T=dot(x,y)", [&](auto& x, auto& y, auto& xv, auto& yv, int ph) { if(!ph) { T r = blas::dot(x, y); res = r; return true; } return eq(res, dotref(xv, yv)) && lin(y, x, xv, yv, T(R(0)), T(R(1))); });
+		run("dot(x,y,res)", [&](auto& x, auto& y, auto& xv, auto& yv, int ph) { if(!ph) { res = T(R(99)); blas::dot(x, y, res); return true; } return eq(res, dotref(xv, yv)) && lin(y, x, xv, yv, T(R(0)), T(R(1))); });
+		run("dot(x,y)==value", [&](auto& x, auto& y, auto& xv, auto& yv, int ph) { if(!ph) { bres = (blas::dot(x, y) == dotref(xv, yv)) && !(blas::dot(x, y) != dotref(xv, yv)) && (blas::dot(x, y) == blas::dot(x, y)); return true; } return bres; });
+		run("array0=dot(x,y)", [&](auto& x, auto& y, auto& xv, auto& yv, int ph) { if(!ph) { multi::array<T, 0> r0 = blas::dot(x, y); res = *r0.data_elements(); return true; } return eq(res, dotref(xv, yv)); });
+		run("R=nrm2(x)", [&](auto& x, auto&, auto& xv, auto&, int ph) { if(!ph) { R r = blas::nrm2(x); rres = r; return true; } double s2 = 0; for(L i = 0; i < n; ++i) s2 += double(std::norm(xv[std::size_t(i)])); return std::abs(double(rres) - std::sqrt(s2)) <= 4 * double(std::numeric_limits<R>::epsilon()) * (1 + std::sqrt(s2)) * double(n + 1); });
+		run("abs(x)", [&](auto& x, auto&, auto& xv, auto&, int ph) { if(!ph) { using blas::operators::abs; rres = +abs(x); return true; } double s2 = 0; for(L i = 0; i < n; ++i) s2 += double(std::norm(xv[std::size_t(i)])); return std::abs(double(rres) - std::sqrt(s2)) <= 4 * double(std::numeric_limits<R>::epsilon()) * (1 + std::sqrt(s2)) * double(n + 1); });
+		(void)bres; return;
+	}
+	k -= n_l1();
+	if(k < n_gemv()) {
+		int const ka = int(take(4)), kx = int(take(4)), ky = int(take(4)); L const m = take(4), n = take(4);
+		std::string const lay = std::string(MK[ka]) + "*" + VK_[kx] + "->" + VK_[ky]; std::string const szs = szc(m) + szc(n);
+		describe(std::string("gemv-forms ") + TN + " " + lay + " m,n=" + std::to_string(m) + "," + std::to_string(n)); sig_mix("gemvf"); sig_mix(lay.c_str()); sig_mix(szs.c_str()); nontrivial(m > 0 && n > 0);
+		T const alpha = CPLX ? val<T>(2, 1, 5) : T(R(2)); static multi::array<T, 1> Z;
+		auto run = [&](char const* opn, T ca, bool into_y, auto&& act) {
+			Buf<T> RA, RX, RY; auto&& A = mkm(RA, ka, m, n, POISON); auto&& x = mkv(RX, kx, n, POISON); auto&& y = mkv(RY, ky, m, OUTFILL);
+			for(L i = 0; i < m; ++i) for(L j = 0; j < n; ++j) A[i][j] = val(i, j, 1); for(L j = 0; j < n; ++j) x[j] = val(j, 0, 2); for(L i = 0; i < m; ++i) y[i] = val(i, 1, 3);
+			std::vector<T> ref(static_cast<std::size_t>(m), T{}); for(L i = 0; i < m; ++i) { T s2{}; for(L j = 0; j < n; ++j) s2 += T(A[i][j]) * T(x[j]); ref[std::size_t(i)] = ca * s2 + (into_y ? T(y[i]) : T{}); }
+			auto sa = RA.s, sx = RX.s; std::vector<T> y0(y.begin(), y.end());
+			std::string const key = std::string("C13:gemv:") + TN + ":" + ((n == 0) ? std::string("n0") : std::string(MK[ka]) + ":" + szs); op((std::string(opn) + ":" + lay + ":" + szs).c_str());
+			Outcome o = classify([&] { act(A, x, y); }, [&]() -> Outcome { bool ok = true;
+				if(into_y) { for(L i = 0; i < m; ++i) ok &= eq(y[i], ref[std::size_t(i)]); } else { ok = (Z.size() == m); for(L i = 0; ok && i < m; ++i) ok &= eq(Z[i], ref[std::size_t(i)]) && eq(y[i], y0[std::size_t(i)]); }
+				for(L i = 0; i < m; ++i) y[i] = OUTFILL; long stray = 0; for(auto const& e : RY.s) stray += !(e == OUTFILL);
+				if(stray) return {"oob-write", "elements outside y were written"}; if(!(RA.s == sa) || !(RX.s == sx)) return {"input-modified", "an input was modified"};
+				if(!ok) return {(n == 0 && !into_y) ? "n0-beta-not-applied" : "wrong", std::string(opn) + " differs from its definition, m,n=" + std::to_string(m) + "," + std::to_string(n)}; return {"ok", ""}; });
+			report(key, o); count(std::string("op:") + opn); };
+		run("y+=gemv(a,A,x)", alpha, true, [&](auto& A, auto& x, auto& y) { y += blas::gemv(alpha, A, x); });
+		run("+gemv(a,A,x)", alpha, false, [&](auto& A, auto& x, auto&) { Z = +blas::gemv(alpha, A, x); });
+		run("array=gemv(a,A,x)", alpha, false, [&](auto& A, auto& x, auto&) { multi::array<T, 1> W = blas::gemv(alpha, A, x); Z = W; });
+		run("A%x", T(R(1)), false, [&](auto& A, auto& x, auto&) { using blas::operators::operator%; Z = A % x; });
+		run("(a*A)%x", alpha, false, [&](auto& A, auto& x, auto&) { using blas::operators::operator*; Z = +((alpha * A) % x); });
+		return;
+	}
+	k -= n_gemv();
+	if(k < n_gemm()) {
+#if C13_T == 3
+		describe("gemm-forms: complex<float> gemm does not compile on the pinned tree"); count("not-compilable:gemm<complex<float>>"); return;
+#else
+		int const ka = int(take(4)), kb = int(take(4)), kc = int(take(4)); L const m = 2 + take(2), n = 2 + take(2), kk = 2 + take(2);
+		std::string const lay = std::string("N") + MK[ka] + "*N" + MK[kb] + "->" + MK[kc]; std::string const szs = szc(m) + szc(n) + szc(kk);
+		describe(std::string("gemm-forms ") + TN + " " + lay + " m,n,k=" + std::to_string(m) + "," + std::to_string(n) + "," + std::to_string(kk)); sig_mix("gemmf"); sig_mix(lay.c_str()); sig_mix(std::uint64_t(m * 16 + n * 4 + kk)); nontrivial();
+		T const alpha = CPLX ? val<T>(2, 1, 5) : T(R(2));
+		auto run = [&](char const* opn, T ca, T cb, auto&& act) {
+			Buf<T> RA, RB, RC; auto&& A = mkm(RA, ka, m, kk, POISON); auto&& B = mkm(RB, kb, kk, n, POISON); auto&& C = mkm(RC, kc, m, n, OUTFILL);
+			for(L i = 0; i < m; ++i) for(L j = 0; j < kk; ++j) A[i][j] = val(i, j, 1); for(L i = 0; i < kk; ++i) for(L j = 0; j < n; ++j) B[i][j] = val(i, j, 2); for(L i = 0; i < m; ++i) for(L j = 0; j < n; ++j) C[i][j] = val(i, j, 3);
+			std::vector<T> ref(static_cast<std::size_t>(m * n), T{}); for(L i = 0; i < m; ++i) for(L j = 0; j < n; ++j) { T s2{}; for(L q = 0; q < kk; ++q) s2 += T(A[i][q]) * T(B[q][j]); ref[std::size_t(i * n + j)] = ca * s2 + cb * T(C[i][j]); }
+			auto sa = RA.s, sb = RB.s; std::string const key = std::string("C13:gemm:") + TN + ":" + lay + ":" + szs; op((std::string(opn) + ":" + lay).c_str());
+			Outcome o = classify([&] { act(A, B, C); }, [&]() -> Outcome { bool ok = true; for(L i = 0; i < m; ++i) for(L j = 0; j < n; ++j) ok &= eq(C[i][j], ref[std::size_t(i * n + j)]);
+				for(L i = 0; i < m; ++i) for(L j = 0; j < n; ++j) C[i][j] = OUTFILL; long stray = 0; for(auto const& e : RC.s) stray += !(e == OUTFILL);
+				if(stray) return {"oob-write", "elements outside C were written"}; if(!(RA.s == sa) || !(RB.s == sb)) return {"input-modified", "an input was modified"};
+				if(!ok) return {"wrong", std::string(opn) + " differs from its definition"}; return {"ok", ""}; });
+			report(key, o); count(std::string("op:") + opn); };
+		run("C=A*B", T(R(1)), T(R(0)), [&](auto& A, auto& B, auto& C) { using blas::operators::operator*; C = A * B; });
+		run("C+=A*B", T(R(1)), T(R(1)), [&](auto& A, auto& B, auto& C) { using blas::operators::operator*; C += A * B; });
+		run("C=a*gemm(b,A,B)", alpha * alpha, T(R(0)), [&](auto& A, auto& B, auto& C) { C = alpha * blas::gemm(alpha, A, B); });
+		run("array=+(A*B)", T(R(1)), T(R(0)), [&](auto& A, auto& B, auto& C) { using blas::operators::operator*; multi::array<T, 2> W = +(A * B); C = W; });
+		return;
+#endif
+	}
+	k -= n_gemm();
+	{	// trsm operator forms:  B |= U(A)  solves A X = B (left),  B /= U(A)  solves X A = B (right)
+		int const ka = int(take(4)), kc = int(take(4)); L const n = 1 + take(3), kk = 1 + take(3); int const uplo = int(take(2)), right = int(take(2));
+		std::string const lay = std::string(MK[ka]) + "->" + MK[kc]; std::string const szs = szc(n) + szc(kk); bool const deg = (n <= 1 || kk <= 1);
+		Buf<T> RA, RB; auto&& A = mkm(RA, ka, n, n, POISON); auto&& B = right ? mkm(RB, kc, kk, n, OUTFILL) : mkm(RB, kc, n, kk, OUTFILL); L const br = right ? kk : n, bc = right ? n : kk;
+		for(L i = 0; i < n; ++i) for(L j = 0; j < n; ++j) { bool in = uplo ? (j >= i) : (j <= i); A[i][j] = in ? (i == j ? T(R(i % 2 ? 2 : 1)) : val(i, j, 1)) : POISON; }
+		std::vector<T> X(static_cast<std::size_t>(br * bc), T{}); for(L i = 0; i < br; ++i) for(L j = 0; j < bc; ++j) X[std::size_t(i * bc + j)] = val(i, j, 2);
+		auto Ain = [&](L i, L j) { bool in = uplo ? (j >= i) : (j <= i); return in ? T(A[i][j]) : T{}; };
+		for(L i = 0; i < br; ++i) for(L j = 0; j < bc; ++j) { T s2{}; if(right) { for(L q = 0; q < n; ++q) s2 += X[std::size_t(i * bc + q)] * Ain(q, j); } else { for(L q = 0; q < n; ++q) s2 += Ain(i, q) * X[std::size_t(q * bc + j)]; } B[i][j] = s2; }
+		char const* opn = right ? (uplo ? "B/=U(A)" : "B/=L(A)") : (uplo ? "B|=U(A)" : "B|=L(A)");
+		auto sa = RA.s; std::string const key = std::string("C13:trsm:") + TN + ":" + lay + ":" + opn + ":" + (deg ? "degenerate" : "general");
+		describe(std::string("trsm-forms ") + TN + " " + opn + " " + lay + " n,k=" + std::to_string(n) + "," + std::to_string(kk)); sig_mix("trsmf"); sig_mix(opn); sig_mix(lay.c_str()); sig_mix(szs.c_str()); nontrivial(); op((std::string(opn) + ":" + lay + ":" + szs).c_str());
+		Outcome o = classify([&] { using blas::operators::operator/=; using blas::operators::operator|=; if(right) { if(uplo) B /= blas::U(A); else B /= blas::L(A); } else { if(uplo) B |= blas::U(A); else B |= blas::L(A); } }, [&]() -> Outcome {
+			bool ok = true; for(L i = 0; i < br; ++i) for(L j = 0; j < bc; ++j) ok &= std::abs(T(B[i][j]) - X[std::size_t(i * bc + j)]) <= R(1e-4) * (R(1) + std::abs(X[std::size_t(i * bc + j)]));
+			for(L i = 0; i < br; ++i) for(L j = 0; j < bc; ++j) B[i][j] = OUTFILL; long stray = 0; for(auto const& e : RB.s) stray += !(e == OUTFILL);
+			if(stray) return {"oob-write", "elements outside B were written"}; if(!(RA.s == sa)) return {"input-modified", "A was modified"}; if(!ok) return {"wrong", std::string(opn) + " does not solve the triangular system, n,k=" + std::to_string(n) + "," + std::to_string(kk)}; return {"ok", ""}; });
+		count(std::string("op:") + opn + ":" + o.sym); report(key, o);
+	}
+}
+#endif
+
 int main(int argc, char** argv) {
 	for(int i = 1; i < argc; ++i) if(std::string(argv[i]) == "--list") { std::printf("%ld\n", ncases()); return 0; }
 	return main_loop(argc, argv, [&](Case& c) { if(c.k < ncases()) one(c); });
